@@ -68,8 +68,11 @@ def gen_leaf(rng, ctx, kind):
     return ("num", rng.randrange(size), size), set()
 
 
-def gen_expr(rng, ctx, depth, kind="real"):
-    """Returns (recipe, free_names)."""
+def gen_expr(rng, ctx, depth, kind="real", ext=None):
+    """Returns (recipe, free_names).  `ext` (opt-in, default off: existing seeds generate the same
+    cases) switches to the extended generator `gen_ext` (array outputs, booleans, einsum, …)."""
+    if ext:
+        return gen_ext(rng, ctx, depth, kind, ext if isinstance(ext, dict) else {})
     if depth <= 0 or rng.random() < 0.15:
         return gen_leaf(rng, ctx, kind)
     if kind != "real":
@@ -208,6 +211,8 @@ def build(r):
         _, name, size, body, idx = r
         lam = Lambda(Variable(name, Bint[size]), build(body))
         return lam[build(idx)]
+    if tag in _EXT_BUILD:
+        return _EXT_BUILD[tag](r)
     raise ValueError(tag)
 
 
@@ -259,6 +264,8 @@ def python_of(r):
     if tag == "lamget":
         _, name, size, body, idx = r
         return f"Lambda(Variable({name!r}, Bint[{size}]), {python_of(body)})[{python_of(idx)}]"
+    if tag in _EXT_PY:
+        return _EXT_PY[tag](r)
     raise ValueError(tag)
 
 
@@ -299,6 +306,8 @@ def _children(r):
             out.append(((2, i), p, "real"))
     elif tag == "lamget":
         out += [((3,), r[3], "real"), ((4,), r[4], "int")]
+    elif tag in _EXT_CHILDREN:
+        out += _EXT_CHILDREN[tag](r)
     return out
 
 
@@ -352,3 +361,338 @@ def shrink(recipe, fails, budget=400):
             except Exception:
                 continue
     return cur
+
+
+# ---------------------------------------------------------------------------------------------
+# Extended (opt-in) recipe kinds — added for C01; nothing above changes behaviour unless a caller
+# passes `ext=...` to gen_expr or builds one of the new tags.
+#
+#   ("cmp", op, a, b)              comparison of two real scalars            -> bool (Bint[2])
+#   ("boolbin", op, a, b)          and / or / xor of booleans                -> bool
+#   ("not", a)                     ~a on a boolean                           -> bool
+#   ("rvar", name, shape)          Variable(name, Reals[shape]) (lazy part)  -> real / array
+#   ("lambda", name, size, body)   Lambda without an immediate getitem       -> array
+#   ("opstack", parts)             ops.stack(parts, 0)   (Finitary)          -> array
+#   ("opcat", parts)               ops.cat(parts, 0)     (Finitary)          -> array
+#   ("einsum", equation, operands) ops.einsum(operands, equation) (Finitary) -> array / real
+#   ("red", op, axis, keepdims, a) ops.sum/prod/amax/amin/all/any over output axes
+#   ("reshape", shape, a)          a.reshape(shape)
+#   ("getslice", index, a)         a[index]  (ints / slices; index stored as ("i", k) | ("s", a, b, c))
+#   ("getitem", a, idx)            a[idx] with an integer-valued funsor idx
+#   ("independent", fn, rv, bv, dv) Independent(fn, rv, bv, dv)
+# Kinds: "real", "bool", ("array", shape), or an int (Bint size).
+# ---------------------------------------------------------------------------------------------
+
+OPS.update({"invert": ops.invert})
+RED_OUT = {"sum": ops.sum, "prod": ops.prod, "amax": ops.amax, "amin": ops.amin, "all": ops.all, "any": ops.any}
+
+
+def _index_of(ix):
+    out = []
+    for it in ix:
+        if it[0] == "i":
+            out.append(it[1])
+        else:
+            out.append(slice(it[1], it[2], it[3]))
+    return tuple(out)
+
+
+def _b_rvar(r):
+    shape = tuple(r[2])
+    return Variable(r[1], Reals[shape] if shape else Real)
+
+
+_EXT_BUILD = {
+    "cmp": lambda r: OPS[r[1]](build(r[2]), build(r[3])),
+    "boolbin": lambda r: OPS[r[1]](build(r[2]), build(r[3])),
+    "not": lambda r: ops.invert(build(r[1])),
+    "rvar": _b_rvar,
+    "lambda": lambda r: Lambda(Variable(r[1], Bint[r[2]]), build(r[3])),
+    "opstack": lambda r: ops.stack(tuple(build(p) for p in r[1]), 0),
+    "opcat": lambda r: ops.cat(tuple(build(p) for p in r[1]), 0),
+    "einsum": lambda r: ops.einsum(tuple(build(p) for p in r[2]), r[1]),
+    "red": lambda r: RED_OUT[r[1]](build(r[4]), r[2], r[3]),
+    "reshape": lambda r: build(r[2]).reshape(tuple(r[1])),
+    "getslice": lambda r: build(r[2])[_index_of(r[1])],
+    "getitem": lambda r: build(r[1])[build(r[2])],
+    "independent": lambda r: Independent(build(r[1]), r[2], r[3], r[4]),
+}
+
+
+def _py_index(ix):
+    parts = []
+    for it in ix:
+        parts.append(str(it[1]) if it[0] == "i" else f"slice({it[1]}, {it[2]}, {it[3]})")
+    return "(" + ", ".join(parts) + ",)"
+
+
+_EXT_PY = {
+    "cmp": lambda r: f"ops.{r[1]}({python_of(r[2])}, {python_of(r[3])})",
+    "boolbin": lambda r: f"ops.{_pyop(r[1])}({python_of(r[2])}, {python_of(r[3])})",
+    "not": lambda r: f"ops.invert({python_of(r[1])})",
+    "rvar": lambda r: f"Variable({r[1]!r}, Reals[{tuple(r[2])!r}])" if r[2] else f"Variable({r[1]!r}, Real)",
+    "lambda": lambda r: f"Lambda(Variable({r[1]!r}, Bint[{r[2]}]), {python_of(r[3])})",
+    "opstack": lambda r: "ops.stack((" + ", ".join(python_of(p) for p in r[1]) + ",), 0)",
+    "opcat": lambda r: "ops.cat((" + ", ".join(python_of(p) for p in r[1]) + ",), 0)",
+    "einsum": lambda r: "ops.einsum((" + ", ".join(python_of(p) for p in r[2]) + f",), {r[1]!r})",
+    "red": lambda r: f"ops.{r[1]}({python_of(r[4])}, {r[2]!r}, {r[3]!r})",
+    "reshape": lambda r: f"({python_of(r[2])}).reshape({tuple(r[1])!r})",
+    "getslice": lambda r: f"({python_of(r[2])})[{_py_index(r[1])}]",
+    "getitem": lambda r: f"({python_of(r[1])})[{python_of(r[2])}]",
+    "independent": lambda r: f"Independent({python_of(r[1])}, {r[2]!r}, {r[3]!r}, {r[4]!r})",
+}
+
+_EXT_CHILDREN = {
+    "cmp": lambda r: [((2,), r[2], "real"), ((3,), r[3], "real")],
+    "boolbin": lambda r: [((2,), r[2], "bool"), ((3,), r[3], "bool")],
+    "not": lambda r: [((1,), r[1], "bool")],
+    "rvar": lambda r: [],
+    "lambda": lambda r: [((3,), r[3], "other")],
+    "opstack": lambda r: [((1, i), p, "other") for i, p in enumerate(r[1])],
+    "opcat": lambda r: [((1, i), p, "other") for i, p in enumerate(r[1])],
+    "einsum": lambda r: [((2, i), p, "other") for i, p in enumerate(r[2])],
+    "red": lambda r: [((4,), r[4], "other")],
+    "reshape": lambda r: [((2,), r[2], "other")],
+    "getslice": lambda r: [((2,), r[2], "other")],
+    "getitem": lambda r: [((1,), r[1], "other"), ((2,), r[2], "int")],
+    "independent": lambda r: [((1,), r[1], "other")],
+}
+
+PY_HEADER += "from funsor.terms import Independent\n"
+
+
+def _prod(shape):
+    n = 1
+    for d in shape:
+        n *= d
+    return n
+
+
+def _gen_shape(rng, maxrank=2):
+    rank = rng.choice([1, 1, 2, 2, 3][:maxrank + 2])
+    return tuple(rng.choice([1, 2, 2, 3]) for _ in range(min(rank, maxrank)))
+
+
+def _bool_tensor(rng, ctx):
+    t = gen_tensor(rng, ctx, 2)
+    return t, set(n for n, _ in t[1])
+
+
+def gen_ext(rng, ctx, depth, kind="real", opts=None):
+    """Extended generator (see the table above).  Returns (recipe, free_names)."""
+    opts = opts or {}
+    rvars = opts.get("rvars", {})
+
+    def rec(d, k, c=None):
+        return gen_ext(rng, ctx if c is None else c, d, k, opts)
+
+    if isinstance(kind, int):
+        return gen_expr(rng, ctx, min(depth, 1), kind)
+    if kind == "bool":
+        c = rng.random()
+        if depth <= 0 or c < 0.15:
+            return _bool_tensor(rng, ctx)
+        if c < 0.55:
+            a, fa = rec(depth - 1, "real")
+            b, fb = rec(depth - 1, "real")
+            return ("cmp", rng.choice(BIN_CMP), a, b), fa | fb
+        if c < 0.8:
+            a, fa = rec(depth - 1, "bool")
+            b, fb = rec(depth - 1, "bool")
+            return ("boolbin", rng.choice(["and", "or", "xor"]), a, b), fa | fb
+        if c < 0.9:
+            a, fa = rec(depth - 1, "bool")
+            return ("not", a), fa
+        a, fa = rec(depth - 1, "bool")
+        present = sorted(fa)
+        if not present:
+            return a, fa
+        rv = [n for n in present if rng.random() < 0.6] or [rng.choice(present)]
+        absent = [n for n in ctx if n not in fa and rng.random() < 0.15]
+        return ("reduce", rng.choice(["and", "or"]), a, tuple(rv), tuple((n, ctx[n]) for n in absent)), fa - set(rv)
+    if isinstance(kind, tuple) and kind[0] == "array":
+        shape = tuple(kind[1])
+        if not shape:
+            return rec(depth, "real")
+        c = rng.random()
+        if depth <= 0 or c < 0.18:
+            avail = [(n, sh) for n, sh in rvars.items() if tuple(sh) == shape]
+            if avail and rng.random() < 0.4:
+                n, sh = rng.choice(avail)
+                return ("rvar", n, tuple(sh)), {n}
+            t = gen_tensor(rng, ctx, "real", event_shape=shape)
+            return t, set(n for n, _ in t[1])
+        if c < 0.32:
+            # Lambda over a context name of the right size, or over a fresh name (broadcast)
+            cands = [n for n, s in ctx.items() if s == shape[0]]
+            if cands and rng.random() < 0.8:
+                name = rng.choice(cands)
+            else:
+                name = "w"
+            c2 = dict(ctx)
+            c2[name] = shape[0]
+            body, fb = rec(depth - 1, ("array", shape[1:]) if len(shape) > 1 else "real", c2)
+            return ("lambda", name, shape[0], body), fb - {name}
+        if c < 0.42:
+            parts = [rec(depth - 1, ("array", shape[1:]) if len(shape) > 1 else "real") for _ in range(shape[0])]
+            return ("opstack", tuple(p[0] for p in parts)), set().union(*[p[1] for p in parts])
+        if c < 0.48 and shape[0] >= 2:
+            cut = rng.randrange(1, shape[0])
+            parts = [rec(depth - 1, ("array", (k,) + shape[1:])) for k in (cut, shape[0] - cut)]
+            return ("opcat", tuple(p[0] for p in parts)), set().union(*[p[1] for p in parts])
+        if c < 0.62:
+            a, fa = rec(depth - 1, ("array", shape))
+            # broadcast partner: same shape, a suffix of it, ones in some places, or a scalar
+            r2 = rng.random()
+            if r2 < 0.4:
+                bshape = shape
+            elif r2 < 0.6:
+                bshape = shape[rng.randrange(0, len(shape)):]
+            elif r2 < 0.8:
+                bshape = tuple(d if rng.random() < 0.5 else 1 for d in shape)
+            else:
+                bshape = ()
+            b, fb = rec(depth - 1, ("array", bshape) if bshape else "real")
+            if rng.random() < 0.5:
+                a, b = b, a
+            return ("binary", rng.choice(BIN_REAL), a, b), fa | fb
+        if c < 0.67:
+            a, fa = rec(depth - 1, ("array", shape))
+            return ("unary", rng.choice(["neg", "abs"]), a), fa
+        if c < 0.77:
+            # reduction over one output axis of a bigger array (or keepdims)
+            keep = rng.random() < 0.35
+            if keep:
+                ones = [i for i, d in enumerate(shape) if d == 1]
+                if not ones:
+                    return rec(depth - 1, ("array", shape))
+                ax = rng.choice(ones)
+                src = shape[:ax] + (rng.choice([1, 2, 3]),) + shape[ax + 1:]
+            else:
+                if len(shape) >= 3:
+                    return rec(depth - 1, ("array", shape))
+                ax = rng.randrange(0, len(shape) + 1)
+                src = shape[:ax] + (rng.choice([1, 2, 3]),) + shape[ax:]
+            a, fa = rec(depth - 1, ("array", src))
+            axis = ax if rng.random() < 0.5 else ax - len(src)
+            return ("red", rng.choice(["sum", "sum", "prod", "amax", "amin"]), axis, keep, a), fa
+        if c < 0.84:
+            n = _prod(shape)
+            cands = [(n,)] + [(a_, n // a_) for a_ in (1, 2, 3) if n % a_ == 0] + [shape[::-1]]
+            src = rng.choice([s_ for s_ in cands if len(s_) <= 3])
+            a, fa = rec(depth - 1, ("array", tuple(src)))
+            return ("reshape", shape, a), fa
+        if c < 0.91:
+            # x[start:stop:step] on the first axis, optionally an int on a dropped leading axis
+            step = rng.choice([1, 1, 2])
+            start = rng.choice([0, 0, 1])
+            srclen = start + (shape[0] - 1) * step + 1 + rng.choice([0, 0, 1])
+            stop = min(srclen, start + (shape[0] - 1) * step + 1 + (step - 1) * rng.choice([0, 1]))
+            if srclen > 4:
+                return rec(depth - 1, ("array", shape))
+            if rng.random() < 0.3 and len(shape) <= 1:
+                lead = rng.choice([1, 2, 3])
+                a, fa = rec(depth - 1, ("array", (lead, srclen) + shape[1:]))
+                return ("getslice", (("i", rng.randrange(lead)), ("s", start, stop, step)), a), fa
+            a, fa = rec(depth - 1, ("array", (srclen,) + shape[1:]))
+            return ("getslice", (("s", start, stop, step),), a), fa
+        # einsum producing this shape
+        letters = "abcd"[:len(shape)]
+        k = rng.choice([1, 2, 3])
+        r2 = rng.random()
+        if len(shape) == 2 and r2 < 0.4:
+            a, fa = rec(depth - 1, ("array", (shape[0], k)))
+            b, fb = rec(depth - 1, ("array", (k, shape[1])))
+            return ("einsum", "az,zb->ab", (a, b)), fa | fb
+        if len(shape) == 2 and r2 < 0.6:
+            a, fa = rec(depth - 1, ("array", (shape[1], shape[0])))
+            return ("einsum", "ba->ab", (a,)), fa
+        if len(shape) == 2 and r2 < 0.8:
+            a, fa = rec(depth - 1, ("array", (shape[0],)))
+            b, fb = rec(depth - 1, ("array", (shape[1],)))
+            return ("einsum", "a,b->ab", (a, b)), fa | fb
+        if len(shape) == 1:
+            a, fa = rec(depth - 1, ("array", (shape[0], k)))
+            b, fb = rec(depth - 1, ("array", (k,)))
+            return ("einsum", "az,z->a", (a, b)), fa | fb
+        a, fa = rec(depth - 1, ("array", shape + (k,)))
+        return ("einsum", letters + "z->" + letters, (a,)), fa
+    # ---- real scalars -------------------------------------------------------------------------
+    c = rng.random()
+    if depth <= 0 or c < 0.12:
+        if rvars and rng.random() < 0.5:
+            avail = [n for n, sh in rvars.items() if not sh]
+            if avail:
+                n = rng.choice(avail)
+                return ("rvar", n, ()), {n}
+        return gen_leaf(rng, ctx, "real")
+    if c < 0.30:
+        a, fa = rec(depth - 1, "real")
+        b, fb = rec(depth - 1, "real")
+        return ("binary", rng.choice(BIN_REAL), a, b), fa | fb
+    if c < 0.35:
+        a, fa = rec(depth - 1, "real")
+        return ("unary", rng.choice(["neg", "abs"]), a), fa
+    if c < 0.50:
+        a, fa = rec(depth - 1, "real")
+        op = rng.choice(RED_OPS)
+        present = sorted(n for n in fa if n in ctx)
+        rv = [n for n in present if rng.random() < 0.6]
+        absent = [n for n in ctx if n not in fa and rng.random() < 0.15]
+        if not rv and not absent:
+            if present:
+                rv = [rng.choice(present)]
+            elif ctx:
+                absent = [rng.choice(list(ctx))]
+            else:
+                return a, fa
+        return ("reduce", op, a, tuple(rv), tuple((n, ctx[n]) for n in absent)), fa - set(rv)
+    if c < 0.62:
+        a, fa = rec(depth - 1, "real")
+        keysrc = sorted(n for n in fa if n in ctx)
+        if not keysrc:
+            return a, fa
+        keys = _subset(rng, keysrc, 0.5) or [rng.choice(keysrc)]
+        subs = []
+        free = set(fa) - set(keys)
+        for k_ in keys:
+            size = ctx[k_]
+            r2 = rng.random()
+            cands = [n for n, s_ in ctx.items() if s_ == size and n != k_]
+            if r2 < 0.35 or not cands:
+                subs.append((k_, ("num", rng.randrange(size), size)))
+            elif r2 < 0.7:
+                n = rng.choice(cands)
+                subs.append((k_, ("var", n, size)))
+                free.add(n)
+            else:
+                v, fv_ = gen_leaf(rng, ctx, size)
+                subs.append((k_, v))
+                free |= fv_
+        return ("subs", a, tuple(subs)), free
+    if c < 0.68 and ctx:
+        name = rng.choice(list(ctx))
+        sub = {k_: v for k_, v in ctx.items() if k_ != name}
+        parts = [gen_ext(rng, sub, depth - 1, "real", opts) for _ in range(ctx[name])]
+        return ("stack", name, tuple(p[0] for p in parts)), set().union({name}, *[p[1] for p in parts])
+    if c < 0.78:
+        # index an array-valued expression with an integer-valued funsor
+        n = rng.choice([1, 2, 3])
+        a, fa = rec(depth - 1, ("array", (n,)))
+        idx, fi = gen_leaf(rng, ctx, n)
+        return ("getitem", a, idx), fa | fi
+    if c < 0.90:
+        shape = _gen_shape(rng)
+        a, fa = rec(depth - 1, ("array", shape))
+        return ("red", rng.choice(["sum", "sum", "prod", "amax", "amin"]), None, rng.random() < 0.15 and False, a), fa
+    if c < 0.96:
+        k = rng.choice([1, 2, 3])
+        a, fa = rec(depth - 1, ("array", (k,)))
+        b, fb = rec(depth - 1, ("array", (k,)))
+        return ("einsum", "z,z->", (a, b)), fa | fb
+    if ctx:
+        name = rng.choice(list(ctx))
+        body, fb = rec(depth - 1, "real")
+        idx, fi = gen_leaf(rng, ctx, ctx[name])
+        return ("lamget", name, ctx[name], body, idx), (fb - {name}) | fi
+    return gen_leaf(rng, ctx, "real")
